@@ -36,7 +36,7 @@ func judgeC03(c *APICall, cx *Ctx) *Violation {
 func init() {
 	defProp("C03",
 		"rapid-generated single API calls over a grammar of every exported operation (boolean functions and wrappers 64/D, engine objects incl. AddPath, scale-func variants and PolyTree executes, InflatePaths64/D, ClipperOffset incl. two groups and a delta callback, NewGroup, Minkowski 64/D, RectClip paths/lines 64/D and their objects, Simplify*, TrimCollinear*, StripDuplicates, areas, bounds, PointInPolygon, Path2ContainsPath1, Ellipse*, scale/convert/translate helpers, Rect/Point methods, the PolyPath node API) with hostile paths (nil, empty, 1-2 points, repeated points, collinear, horizontal, spikes, pool coordinates up to 2^29), hostile scalars (0, +-0.49, +-0.5, 1e-300, +-1e12), every enum value 0..5 and 255, empty / inverted / zero-width rectangles, precisions incl. out-of-range ones; oracle: no panic except ErrPrecisionRange for a precision outside [-8,8], every Execute* returns true, the call returns within 10 s (in-process watchdog saves the journalled case); non-trivial = an argument path has >= 3 distinct consecutive points",
-		[]string{"resource-shaped preconditions: round joins/caps are asked for at most ~1e5 arc steps (arc tolerance >= |delta|*1e-5), ellipse radii <= 1e9, scaled float inputs stay within 2^30",
+		[]string{"resource-shaped preconditions: round joins/caps are asked for at most ~1e5 arc steps (arc tolerance >= |delta|*1e-5), ellipse radii and the scaled delta of round ends <= 1e9, Minkowski operands of at most 16 points each (their parallelograms are united), scaled float inputs stay within 2^30",
 			"the 10 s deadline needs 10 s of wall clock and 9 s of process CPU time since the call started (a starved process is not a hang); typical calls take microseconds"},
 		drawAPICall, judgeC03)
 }
